@@ -544,6 +544,12 @@ class ExprMixin:
             return l == r
         if l is NOTIMPL or r is NOTIMPL:
             return l is r
+        if l is r:
+            return True                  # the very same value (str ==, or a dataclass-free object compared with itself)
+        if self.theory is not None and hasattr(self.theory, "equals_other"):
+            x = self.theory.equals_other(self, l, r)
+            if x is not None:
+                return x
         raise OutsideSubset(f"== on {l!r}, {r!r}")
 
     def _abs_eq(self, l, r):
